@@ -51,6 +51,8 @@ type FuncContract struct {
 	Pure     bool
 	NoEffect bool
 	Havoc    bool
+	// WritesArgs: the callee may write objects passed directly (writes-args)
+	WritesArgs bool
 	Replay   map[string]string
 	Params   []string // optional explicit parameter names for ext/iface contracts
 	Results  []string
@@ -422,6 +424,10 @@ func (db *ContractDB) loadFile(file, pkgPath string) (err error) {
 				cur.Pure = true
 			case "noeffect":
 				cur.NoEffect = true
+			case "writes-args":
+				// besides `modifies`, the callee may write the objects passed to it
+				// directly (also when passed as interface values, e.g. json.Unmarshal(data, &v))
+				cur.WritesArgs = true
 			case "havoc":
 				cur.Havoc = true
 			case "note":
